@@ -563,6 +563,10 @@ func c11Cases(rng *rand.Rand, n int) []c11Case {
 		{Name: "bytes-exactly-two", Actions: []c11Action{{K: "publish", Pads: []int{10, 10, 10}}, {K: "fc", Msgs: 5, Byts: 50}, {K: "ack", Pick: []int{0}}, {K: "extack", Pick: []int{0}}}},
 		{Name: "external-ack-frees-capacity", Actions: []c11Action{{K: "fc", Msgs: 2, Byts: 10000}, {K: "publish", Pads: []int{0, 0, 0, 0}}, {K: "extack", Pick: []int{0}}, {K: "extack", Pick: []int{0, 1}}}},
 		{Name: "zero-deadline-frees-capacity", Actions: []c11Action{{K: "fc", Msgs: 2, Byts: 10000}, {K: "publish", Pads: []int{0, 0, 0, 0}}, {K: "delay0", Pick: []int{1}}, {K: "ack", Pick: []int{0}}}},
+		// an older message whose lease was extended stays outstanding; a younger one is nacked and is due again
+		// after its back-off: the fetch that is waiting has to wake at *that* deadline, not at the older one's
+		{Name: "redelivery-behind-extended-lease", Actions: []c11Action{{K: "fc", Msgs: 2, Byts: 10000}, {K: "publish", Pads: []int{0}}, {K: "advance", D: int64(time.Second)}, {K: "publish", Pads: []int{0}}, {K: "extend", Pick: []int{0}}, {K: "nack", Pick: []int{1}}, {K: "advance", D: int64(12500 * time.Millisecond)}}},
+		{Name: "redelivery-behind-extended-lease-grpc", Grpc: true, Actions: []c11Action{{K: "fc", Msgs: 2, Byts: 10000}, {K: "publish", Pads: []int{0}}, {K: "advance", D: int64(time.Second)}, {K: "publish", Pads: []int{0}}, {K: "extend", Pick: []int{0}}, {K: "nack", Pick: []int{1}}, {K: "advance", D: int64(12500 * time.Millisecond)}}},
 		{Name: "exact-fit", Actions: []c11Action{{K: "publish", Pads: []int{0, 0, 0, 0}}, {K: "fc", Msgs: 5, Byts: 28}, {K: "ack", Pick: []int{0}}, {K: "ack", Pick: []int{0, 1}}}},
 		{Name: "exact-fit-single", Actions: []c11Action{{K: "fc", Msgs: 5, Byts: 14}, {K: "publish", Pads: []int{0, 0}}, {K: "ack", Pick: []int{0}}}},
 		{Name: "exact-fit-second", Actions: []c11Action{{K: "publish", Pads: []int{6, 0, 0}}, {K: "fc", Msgs: 5, Byts: 34}, {K: "nack", Pick: []int{1}}}},
